@@ -37,6 +37,14 @@ def variants(rng, f):
     g = copy.deepcopy(f)
     g["bits"] = f["bits"] * 2
     out.append(("bits", g))
+    # the level may be None (documented "int or None"; what get_fingerprint_at_level(level=None) returns): another level than -1
+    g = copy.deepcopy(f)
+    g["level"] = None
+    out.append(("level-none", g))
+    if f["level"] != -1:
+        h = copy.deepcopy(f)
+        h["level"] = -1
+        out.append(("level-minus-one", h))
     if f["kind"] != "bit" and f["cnt"]:
         g = copy.deepcopy(f)
         k = rng.randrange(len(g["cnt"]))
@@ -135,12 +143,15 @@ class C09(vlib.Check):
         t = case["t"]
         if t == "dbeq":
             return [{"op": "fpr.hash", "words": []}]
+        def m(spec):
+            # the model's level is an integer: `None` is sent as a level no fingerprint uses (it equals only itself)
+            return dict(spec, level=-(2 ** 40)) if spec["level"] is None else spec
         if t == "pair":
-            a, b = case["a"], case["b"]
+            a, b = m(case["a"]), m(case["b"])
             return [{"op": "fp.eq", "a": a, "b": b}, {"op": "fp.ne", "a": a, "b": b},
                     {"op": "fp.eq", "a": b, "b": a}, {"op": "fp.ne", "a": b, "b": a}]
         if t == "triple":
-            return [{"op": "fp.eq", "a": x, "b": y} for x in case["fps"] for y in case["fps"]]
+            return [{"op": "fp.eq", "a": m(x), "b": m(y)} for x in case["fps"] for y in case["fps"]]
         if t == "copy":
             if case["how"] == "from_fingerprint":
                 return [{"op": "fp.from_fingerprint", "kind": case["fp"]["kind"], "fp": case["fp"]}]
